@@ -126,6 +126,7 @@ QB_OPS = {
     "orderby:al": lambda r: r.orderby(A((t_().o + 1).as_("m"))),
     "orderby:f": lambda r: r.orderby(A(t_().o), order=Order.asc),
     "orderby:str": lambda r: r.orderby("o2"),
+    "orderby:dup": lambda r: r.orderby("tenant", "region", "tenant", "id", "zone", "region"),
     "rollup:f": lambda r: r.rollup(A(t_().r1)),
     "rollup:list": lambda r: r.rollup([t_().r2, t_().r3]),
     "rollup:mysql": lambda r: r.rollup(t_().r4, vendor="mysql"),
@@ -150,6 +151,13 @@ QB_OPS = {
     "with_": lambda r: r.with_(sub_(), "c2"),
     "into": lambda r: r.into(A(Table("x"))),
     "columns": lambda r: r.columns("c", "d"),
+    # table-less Field objects (instead of names) handed to calls that bind columns to the statement's table
+    "columns:f": lambda r: r.columns(A(T.Field("cf")), A(T.Field("cg"))),
+    "on_conflict:f0": lambda r: r.on_conflict(A(T.Field("k0"))),
+    "do_update:f0": lambda r: r.do_update(A(T.Field("d0")), 4),
+    "set:f0": lambda r: r.set(A(T.Field("s0")), A(T.Field("s1"))),
+    "select:f0": lambda r: r.select(A(T.Field("q0"))),
+    "groupby:f0": lambda r: r.groupby(A(T.Field("g0"))).orderby(A(T.Field("o0"))),
     "insert": lambda r: r.insert(3, 4),
     "insert:rows": lambda r: r.insert((1, 2), (3, 4)),
     "replace": lambda r: r.replace(5, 6),
